@@ -92,23 +92,37 @@ __CPROVER_ensures((full_fifo_ptr->quit_signal || full_fifo_ptr->first_ptr == NUL
 __CPROVER_ensures(__CPROVER_return_value == EB_ErrorNone);
 #endif
 
+#ifdef C23_L3_GETEMPTY
+/* This unit keeps the REAL svt_fifo_pop_front (L0-verified) because the function goes on to write into the
+ * popped wrapper: a contract-havoced out-pointer makes CBMC case-split over every object (no answer in 10 min).
+ * The harness owns the FIFO object (g_shut_fifo) so the lock/unlock hooks can snapshot first_ptr: the pop is
+ * shown to happen inside the FIFO's critical section by first_ptr being unchanged before the lock and after
+ * the unlock. */
 EbErrorType svt_get_empty_object(EbFifo *empty_fifo_ptr, EbObjectWrapper **wrapper_dbl_ptr)
-__CPROVER_requires(FIFO_SHAPE(empty_fifo_ptr) && __CPROVER_is_fresh(wrapper_dbl_ptr, sizeof(*wrapper_dbl_ptr)))
+__CPROVER_requires(__CPROVER_rw_ok(empty_fifo_ptr, sizeof(*empty_fifo_ptr)) && empty_fifo_ptr == g_shut_fifo &&
+                   empty_fifo_ptr->lockout_mutex != NULL && empty_fifo_ptr->counting_semaphore != NULL &&
+                   empty_fifo_ptr->lockout_mutex != empty_fifo_ptr->counting_semaphore)
+__CPROVER_requires(__CPROVER_is_fresh(wrapper_dbl_ptr, sizeof(*wrapper_dbl_ptr)))
 __CPROVER_requires(empty_fifo_ptr->first_ptr == NULL ||
                    __CPROVER_is_fresh(empty_fifo_ptr->first_ptr, sizeof(EbObjectWrapper)))
 __CPROVER_requires(SEM_INV(empty_fifo_ptr) && g_quit_posted == 0 && L3_ZERO)
-__CPROVER_assigns(L3_GHOST, *wrapper_dbl_ptr, empty_fifo_ptr->first_ptr, empty_fifo_ptr->last_ptr;
+__CPROVER_assigns(L3_GHOST, g_first_at_lock, g_first_at_unlock, *wrapper_dbl_ptr, empty_fifo_ptr->first_ptr,
+                  empty_fifo_ptr->last_ptr;
                   empty_fifo_ptr->first_ptr != NULL: empty_fifo_ptr->first_ptr->live_count,
                                                      empty_fifo_ptr->first_ptr->release_enable)
 __CPROVER_ensures(g_relproc_calls == 1 && g_relproc_last == GID(empty_fifo_ptr) && g_order_ok == 1)
 __CPROVER_ensures(g_waits == 1 && g_last_wait == empty_fifo_ptr->counting_semaphore)
 __CPROVER_ensures(g_nheld == 0 && g_locks == 1 && g_unlocks == 1 && g_last_lock == empty_fifo_ptr->lockout_mutex)
-__CPROVER_ensures(g_fifo_pops == 1 && *wrapper_dbl_ptr != NULL &&
-                  *wrapper_dbl_ptr == __CPROVER_old(empty_fifo_ptr->first_ptr))
+/* the head (posting order) is handed out, and the list advanced, inside the critical section only */
+__CPROVER_ensures(*wrapper_dbl_ptr != NULL && *wrapper_dbl_ptr == __CPROVER_old(empty_fifo_ptr->first_ptr))
+__CPROVER_ensures(empty_fifo_ptr->first_ptr == __CPROVER_old(empty_fifo_ptr->first_ptr->next_ptr))
+__CPROVER_ensures(g_first_at_lock == GID(__CPROVER_old(empty_fifo_ptr->first_ptr)) &&
+                  g_first_at_unlock == GID(empty_fifo_ptr->first_ptr))
 /* a wrapper handed out as empty starts with no references and release enabled */
 __CPROVER_ensures((*wrapper_dbl_ptr)->live_count == 0 && (*wrapper_dbl_ptr)->release_enable == EB_TRUE)
-__CPROVER_ensures(g_sem_w_value <= (unsigned)g_fifo_len)
+__CPROVER_ensures(g_sem_w_value + 1 <= (unsigned)g_fifo_len)
 __CPROVER_ensures(__CPROVER_return_value == EB_ErrorNone);
+#endif
 
 /* ---- wrapper operations: all under the EMPTY queue's mutex of the wrapper's own resource ---- */
 #define WRAP_SHAPE(o)                                                                                   \
